@@ -74,18 +74,25 @@ func TestVerif_C08(t *testing.T) {
 		vfC08Run(rec, how)
 	}
 	for i, proc := range []string{"MKDIR", "WRITE", "CREATE", "REMOVE", "SETATTR", "SYMLINK", "RENAME"} {
-		vfC08InFlight(rec, proc, i%2 == 0)
+		vfC08InFlight(rec, proc, i%2 == 0, false, "")
 	}
+	// the same on an export with Async set, and parked at the LAST modifying call a request makes
+	// (the timestamp update after a write) instead of the first
+	for _, proc := range []string{"WRITE", "SETATTR", "CREATE"} {
+		vfC08InFlight(rec, proc, false, true, "")
+	}
+	vfC08InFlight(rec, "WRITE", false, true, "Chtimes")
+	vfC08InFlight(rec, "WRITE", false, false, "Chtimes")
 }
 
 // vfC08InFlight: a mutating request is parked inside the backend (optionally long enough
 // for HandleCall to give up on it), the export is switched to read-only, and the request
 // is released. No modifying backend call may complete after the switch has returned.
-func vfC08InFlight(rec *evid.Rec, proc string, timeoutFirst bool) {
+func vfC08InFlight(rec *evid.Rec, proc string, timeoutFirst bool, async bool, parkAt string) {
 	fs := refs.New()
 	fs.PlantDir("/d", 0777, 0, 0)
 	fs.PlantFile("/d/f", []byte("data"), 0666, 0, 0)
-	opts := ExportOptions{AttrCacheTimeout: 1}
+	opts := ExportOptions{AttrCacheTimeout: 1, Async: async}
 	if timeoutFirst {
 		opts.Timeouts = &TimeoutConfig{DefaultTimeout: 30 * time.Millisecond}
 	}
@@ -102,11 +109,13 @@ func vfC08InFlight(rec *evid.Rec, proc string, timeoutFirst bool) {
 		rec.Infra("lookup d")
 		return
 	}
+	proc0 := proc
+	defer func() { _ = proc0 }()
 	dh := vfFH(l.FH)
 	l, _ = c.lookup(dh, "f")
 	fh := vfFH(l.FH)
 	lg := &vfC16Log{open: map[uint64]*vfOpEv{}, gates: map[string]*vfGate{}}
-	gate := &vfGate{parked: make(chan struct{}), open: make(chan struct{})}
+	gate := &vfGate{opName: parkAt, parked: make(chan struct{}), open: make(chan struct{})}
 	target := "/d/new"
 	if proc == "WRITE" || proc == "REMOVE" || proc == "SETATTR" || proc == "RENAME" {
 		target = "/d/f"
@@ -145,6 +154,11 @@ func vfC08InFlight(rec *evid.Rec, proc string, timeoutFirst bool) {
 	select {
 	case <-gate.parked:
 	case <-time.After(20 * time.Second):
+		if parkAt != "" {
+			// this request makes no such backend call on this tree: nothing to park
+			rec.Distinct(fmt.Sprintf("in-flight-switch|%s|async=%v|never-reached-%s", proc, async, parkAt))
+			return
+		}
 		rec.Inconclusive(1)
 		return
 	}
@@ -206,7 +220,7 @@ func vfC08InFlight(rec *evid.Rec, proc string, timeoutFirst bool) {
 	if late > 0 {
 		rec.Violate("C08/backend-modified-after-switch-to-read-only-returned/proc="+proc, fmt.Sprintf("%d modifying backend calls (first: %s) completed after UpdatePolicyOptions(ReadOnly) had returned; the request was in flight (timed out first: %v) when the switch began", late, first, timeoutFirst), map[string]any{"proc": proc, "timeout_first": timeoutFirst})
 	}
-	rec.Distinct(fmt.Sprintf("in-flight-switch|%s|timeout-first=%v|late-mutations=%v", proc, timeoutFirst, late > 0))
+	rec.Distinct(fmt.Sprintf("in-flight-switch|%s|timeout-first=%v|async=%v|park=%s|late-mutations=%v", proc, timeoutFirst, async, parkAt, late > 0))
 }
 
 func vfC08Run(rec *evid.Rec, how string) {
